@@ -157,6 +157,11 @@ def check_compose(e1, e2, op):
             out.append({"kind": "compose-rejection-differs", "case": case, "expected": [a[0], b[0]], "observed": c[0], "msg": expr})
         return out
     summed = a[2] + b[2]
+    again = a[2] + b[2]  # summands must be left untouched: adding the same two extracts again gives the same sum ...
+    fresh_a = _extract(e1)  # ... and the left summand still equals a fresh extract of its expression
+    if again != summed or (fresh_a[0] == "ok" and fresh_a[2] != a[2]):
+        out.append({"kind": "summand-mutated-by-add", "case": case, "expected": repr(fresh_a[2])[:300], "observed": repr(a[2])[:300],
+                    "msg": f"extract({e1}) + extract({e2}) changed a summand"})
     s = {"rc": list(summed.requirement_constraint_keys), "hint": list(summed.hint_keys), "fc": list(summed.format_constraint_keys),
          "pkg": sorted(summed.package_keys), "time": sorted(summed.time_condition_keys)}
     whole = dict(c[1], pkg=sorted(c[1]["pkg"]), time=sorted(c[1]["time"]))
